@@ -103,7 +103,11 @@ def run(tier, seed, replay=None):
         runs = []
         for th in ([1, 2, 8, 8] if tier == "quick" else [1, 1, 2, 3, 5, 8, 16, 16]):
             runs.append(dict(base, name="det_t%d_%d" % (th, len(runs)), threads=th))
+        # the same non-interacting cells listed in the opposite order, one thread: which cell is served first (by which thread) must not
+        # matter either -- a deterministic witness of what the thread-count comparison can only catch by winning a race
+        runs.append(dict(base, name="det_reversed", threads=1, cells=list(reversed(base["cells"]))))
         results = tc.run_scenarios("m1d0", runs, work)
+        rev = results.pop()
         digests = []
         for s, ev, rc, txt, ep in results:
             if rc != 0 or not ev or ev[-1].get("e") != "end":
@@ -116,6 +120,15 @@ def run(tier, seed, replay=None):
             if dg != ref[1] or it != ref[2]:
                 diff = [a for a, b in zip(dg, ref[1]) if a != b]
                 chk.violation("impl:C15_BitIdentical:threads=%d" % th, "final state with %d threads differs from the single-threaded run (cells %s)" % (th, diff[:4]), {"mode": "det", "scenario": dict(base, threads=th)})
+        s_r, ev_r, rc_r, _, _ = rev
+        if rc_r != 0 or not ev_r or ev_r[-1].get("e") != "end":
+            chk.violation("crash:det:reversed", "solver run with the cells listed in reverse order terminated abnormally", {"mode": "det", "scenario": s_r})
+        elif ref:
+            ndet += 1
+            strip = lambda dg: sorted(x.split(":", 1)[1] for x in dg)
+            if strip(ev_r[-1]["digest"]) != strip(ref[1]):
+                chk.violation("impl:C15_OrderIndependent", "non-interacting cells end in a different state when they are listed in the opposite order (1 thread): %s vs %s" % (
+                    strip(ev_r[-1]["digest"])[:3], strip(ref[1])[:3]), {"mode": "det", "scenario": s_r})
         chk.cov["determinism_runs"] = [{"threads": th, "iterations": it, "digest0": dg[0] if dg else None} for th, dg, it in digests]
     chk.cov["traces_validated_against_impl"] = ntr + ndet
     chk.cov["evaluations"] = ntr + ndet
